@@ -4325,6 +4325,7 @@ func (p *Posix) CopyObject(ctx context.Context, input s3response.CopyObjectInput
 		return nil, s3err.GetAPIError(s3err.ErrNoSuchKey)
 	}
 
+	verifhook.At("copy.src-opened", srcBucket, srcObject)
 	mdmap := make(map[string]string)
 	p.loadObjectMetaData(srcBucket, srcObject, &fi, mdmap)
 
@@ -4547,6 +4548,7 @@ func (p *Posix) CopyObject(ctx context.Context, input s3response.CopyObjectInput
 			}
 		}
 
+		verifhook.At("copy.src-attrs-read", srcBucket, srcObject)
 		res, err := p.PutObject(ctx, putObjectInput)
 		if err != nil {
 			return nil, err
